@@ -270,7 +270,7 @@ class Scenario:
 
     # ---- implementation side
     built = 0
-    SHAPES = ("function", "function", "partial", "object", "function")
+    SHAPES = ("function", "wrapped", "partial", "object", "function")
     HOSTS = (None, "example.org", "example.org:", "[::1", "h\xe9te:80",
              "example.org:8080")
 
@@ -296,6 +296,15 @@ class Scenario:
                 return functools.partial(fun)
             if shape == "object":
                 return _CallableObject(fun)
+            if shape == "wrapped":
+                # a decorated callable: what was registered is the wrapper
+                import functools
+
+                @functools.wraps(fun)
+                def decorated(*args, **kwargs):
+                    return fun(*args, **kwargs)
+                decorated.__name__ = "decorated_" + fun.__name__
+                return decorated
             return fun
         if self.digest:
             app.secret_key = "k" * 16
@@ -308,7 +317,8 @@ class Scenario:
                 trace.append(["B", i])
                 seen.append((req.uri_rule, "endpoint" if endpoint_box and
                              req.uri_handler is endpoint_box[0] else
-                             getattr(req.uri_handler, "__name__", None)))
+                             "other:%s" % getattr(req.uri_handler, "__name__",
+                                                  None)))
                 return act(b)
             hook.__name__ = "before%d" % i
             return hook
